@@ -14,6 +14,7 @@ pub mod c10;
 pub mod c11;
 pub mod c12;
 pub mod c13;
+pub mod c14;
 pub mod c15;
 
 pub fn run(ctx: &Ctx) -> i32 {
@@ -31,6 +32,7 @@ pub fn run(ctx: &Ctx) -> i32 {
         "C11" => c11::run(ctx),
         "C12" => c12::run(ctx),
         "C13" => c13::run(ctx),
+        "C14" => c14::run(ctx),
         "C15" => c15::run(ctx),
         other => {
             eprintln!("unknown property {}", other);
@@ -54,6 +56,7 @@ pub fn replay(prop: &str, op: &str, case: &Value, acc: &mut Acc) -> bool {
         "C11" => c11::replay(op, case, acc),
         "C12" => c12::replay(op, case, acc),
         "C13" => c13::replay(op, case, acc),
+        "C14" => c14::replay(op, case, acc),
         "C15" => c15::replay(op, case, acc),
         _ => false,
     }
